@@ -139,3 +139,16 @@ def nrounds_rebase(t, coef_of, bsl, bsr, dim):
             continue
         n += 2 + 2 * (2 * max(1, abs(e).bit_length()) + 1)
     return n
+
+
+def kind_from_slot(a, b, bsl, bsr, ty):
+    """Conversion between kinds across base-unit sets: b<bsl>::from(a<bsr>) and a.into()  (impl_from!, autoconvert flavour)."""
+    rt = STYPES[ty]["rust"]
+    return f"""    type V = {rt};
+    type A = uom::si::{a['module']}::{a['alias']}<{units_type(bsr, ty)}, V>;
+    type Bq = uom::si::{b['module']}::{b['alias']}<{units_type(bsl, ty)}, V>;
+    let p = |s: &str| -> V {{ {parse_expr(ty, 's')} }};
+    let sh = |v: &V| -> String {{ {show_expr(ty, 'v.clone()')} }};
+    let x = A {{ dimension: PhantomData, units: PhantomData, value: p(a[1]) }};
+    let y: Bq = match a[0] {{ "kfrom" => Bq::from(x), "kinto" => x.into(), _ => return "BADOP".to_string() }};
+    sh(&y.value)"""
